@@ -208,6 +208,22 @@ def run_loads(col):
                 bad2 = diff_dense(r2, rf)
                 return not bad2, "%s: %s" % (method_where(cls, "update"), "; ".join(b[:120] for b in bad2[:2]))
             col.check("C14.O4", "PointLoad update (axisymmetric=%s, %d extra fields)" % (axi, mixed), "after update(values) the item assembles the vector of a fresh item with those values and the same points / flags", chk_pl)
+            def chk_moved(axi=axi):
+                # the public attribute `points` re-assigned after a first assembly (a load that travels along an edge): nothing of the first points survives
+                npt = ra.mesh.npoints
+                cand = [q for q in range(npt) if q not in pts]
+                far = [q for q in cand if not is_zero(P(ra.mesh.points[q, 1]) - P(ra.mesh.points[pts[0], 1]))] + cand
+                pts_b = (far + list(pts))[:2]
+                mv = it.call(cls, [fc, pts], dict(values=vals, axisymmetric=axi))
+                it.call(it.getattr(it.getattr(mv, "assemble"), "vector"), [fc], {})
+                it.setattr(mv, "points", list(pts_b))
+                it.call_method(mv, "update", [vals])
+                r2 = micro.dense(it.call(it.getattr(it.getattr(mv, "assemble"), "vector"), [fc], {}))
+                fresh = it.call(cls, [fc, list(pts_b)], dict(values=vals, axisymmetric=axi))
+                rf = micro.dense(it.call(it.getattr(it.getattr(fresh, "assemble"), "vector"), [fc], {}))
+                bad2 = diff_dense(r2, rf)
+                return not bad2, "mechanics/_pointload.py PointLoad._vector after `load.points = %s`: %s" % (pts_b, "; ".join(b[:120] for b in bad2[:2]))
+            col.check("C14.O4", "PointLoad points re-assigned after an assembly (axisymmetric=%s, %d extra fields)" % (axi, mixed), "after `load.points = other points` and update(values) the item assembles the vector of a fresh item on those points (2 pi R of the current points when axisymmetric)", chk_moved)
             col.add("C14.O4", "PointLoad vector (axisymmetric=%s, %d extra fields)" % (axi, mixed), "exactly the given values in the rows of the loaded points (times 2 pi R when axisymmetric), zeros elsewhere", not bad and r.shape == (n, 1), "rows %s" % bad)
         # documented alternative spellings: ids counted from the end, one scalar for every component, no values at all
         npts_ = ra.mesh.npoints
